@@ -45,6 +45,10 @@ func main() {
 		}
 		return
 	}
+	if cmd == "child" {
+		drive.ServeChild(prop, os.Stdin, os.Stdout)
+		return
+	}
 	p, ok := drive.Registry[prop]
 	if !ok {
 		fmt.Fprintln(os.Stderr, "unknown property", prop)
